@@ -148,8 +148,26 @@ func c18Run(r *R, faults bool) {
 	c17Install(r) // merge monitors (C17) run in every cluster simulation
 	nodes := make([]*CNode, cfg.n)
 	nextTag := 1
-	for i := 0; i < cfg.n; i++ {
-		if i > 0 {
+	// start order: usually seeds first; in some runs a random order, so that a node comes up before any of its seeds
+	// and joins through the join-retry path (a start order is not a fault: it also happens in the fault-free variant)
+	order := make([]int, cfg.n)
+	for i := range order {
+		order[i] = i
+	}
+	lateSeed := false
+	if r.Chance(30) {
+		for i := cfg.n - 1; i > 0; i-- {
+			j := r.Choose(i + 1)
+			order[i], order[j] = order[j], order[i]
+		}
+		lateSeed = order[0] >= nSeeds
+		if lateSeed {
+			r.Count("node-started-before-its-seeds")
+		}
+	}
+	desc["start_order"] = fmt.Sprint(order)
+	for k, i := range order {
+		if k > 0 {
 			vsimrt.Sleep(time.Duration(r.Choose(1500)) * time.Millisecond) // timer phase offsets between nodes
 		}
 		if faults && r.Chance(25) {
@@ -164,6 +182,11 @@ func c18Run(r *R, faults bool) {
 	}
 	var fdesc []string
 	departures := 0 // nodes that left the membership for good (crash, leave, restart under a new id)
+	if lateSeed {
+		// join retries back off 2 s, 4 s, 8 s, ...: give the late joiners time to get in before anything is judged
+		fdesc = append(fdesc, fmt.Sprintf("start order %v (a node started before its seeds and joined by retry)", order))
+		vsimrt.Sleep(45 * time.Second)
+	}
 	if faults {
 		phase := time.Duration(30+r.Choose(91)) * time.Second
 		end := time.Since(t0) + phase
